@@ -257,8 +257,15 @@ def case_strategy(draw, min_boards=1):
             # blocking steps of the main thread after seating: per board 2 barrier arrivals, one read per call, and per
             # trick one pause and four reads (as the table manager stands today; if the position lies beyond the end of
             # the session nothing is interrupted and the case is skipped)
-            upto = sum(2 + len(b2['calls']) + (65 if A.result(b2['dealer'], b2['calls']) is not None else 0) for b2 in scenario['boards'][:k + 1])
-            return scenario, {'board': k, 'phase': 'any', 'pos': jraw * 7919 % max(1, upto), 'kind': kind, 'seat': None}
+            ends, upto = [], 0
+            for b2 in scenario['boards'][:k + 1]:
+                upto += 2 + len(b2['calls']) + (65 if A.result(b2['dealer'], b2['calls']) is not None else 0)
+                ends.append(upto)
+            pos = jraw * 7919 % max(1, upto)
+            if jraw % 2:
+                # half of the cases: around the end of a board (the step right after its last card or call was received)
+                pos = max(0, ends[(jraw // 2) % len(ends)] - 2 + (jraw // 16) % 4)
+            return scenario, {'board': k, 'phase': 'any', 'pos': pos, 'kind': kind, 'seat': None}
         if kind == 'operator interrupt':
             total = len(b['calls']) + (52 if played else 0)
             return scenario, {'board': k, 'phase': 'any', 'pos': jraw % total, 'kind': kind, 'seat': None}
